@@ -20,7 +20,7 @@ MANIFEST = dict(
         "(offset>=0), monomial kernels are PSD, PSD-ness is closed under non-negative scaling, weighted sums, products (Schur), "
         "normalisation and sub-ranges, hence every kernel expression with admissible parameters is PSD and every assembled regularised "
         "Gram matrix is PosSemidef (kernel_psd: arbitrary exp, Gaussian/ARD leaves by hypothesis; kernel_psd_equalDim / gram_psd_equalDim: real exp, data of equal dimension, Gaussian (gamma>=0) and ARD (gamma_t>=0) PROVED via the exponential series and closedness of the PSD cone - no hypothesis left); linear kernel also PSD as a quadratic form over "
-        "any ordered field. ModelKernel (affine model), SubrangeKernel and PointSetKernel are covered (symmetry, block=single, Gram assembly; "
+        "any ordered field. ModelKernel (affine model; chains with state: see the end), SubrangeKernel and PointSetKernel are covered (symmetry, block=single, Gram assembly; "
         "PSD for Model/Subrange). Derivatives (HasDerivAt): the model of weightedParameterDerivative / weightedInputDerivative of the Gaussian, "
         "polynomial, linear and ARD (log-gamma) kernels, of ScaledKernel, and the log-weight derivative of WeightedSumKernel are the true "
         "derivatives of the weighted sum of kernel values for all batches and coefficients. The model is tied to the real classes by an "
@@ -74,8 +74,42 @@ MANIFEST = dict(
         "evalSkip4; oracle: kernel on the filtered vectors, symmetry, refusal of kernels without SUPPORTS_VARIABLE_INPUT_SIZE). "
         "RE-USED OUTPUT OBJECTS (op stale, every case): both derivative calls of every kernel into pre-filled gradient objects must return what "
         "a call into a fresh object returns (calculateKernelMatrixParameterDerivative re-uses one blockGradient). "
-        "Two genuine defects found: F-C05-6 gaussian-task-kernel-stale-matrix and F-C05-7 pointset-parameter-derivative-not-cleared (open, "
-        "patches in findings_proposed/)."),
+        "Two genuine defects found there: F-C05-6 gaussian-task-kernel-stale-matrix and F-C05-7 pointset-parameter-derivative-not-cleared (both "
+        "repaired in /repo since: 9339bce1, ceadede4). "
+        "MODELKERNEL OVER MODELS WITH STATE (branch str3-c05; every run, both tiers): ModelKernel is exercised over ConcatenatedModel chains - "
+        "1-3 dense layers (linear / rectifier / tanh / logistic), element-wise NeuronLayers, softmax / normalizer row layers, frozen layers - whose "
+        "State holds the hidden responses of ONE batch (ops mnet / mn <op>, harness builds the real LinearModel<..,Act> / NeuronLayer / "
+        "ConcatenatedModel / ModelKernel objects). Model: Model/KernelChain.lean modelKernelBlock / modelKernelParamGrad = the code of "
+        "ModelKernelImpl (both batches through the model, base kernel's parameter derivative, its input derivative for BOTH arguments, the model's "
+        "backward pass of each batch through ITS OWN hidden responses) over the C04 chain model (Chain.evalB / Chain.backward). Theorems "
+        "(Props/C05c.lean, HasDerivAt over R): modelKernel_weight_derivative_correct / modelKernel_offset_derivative_correct - for every weight / "
+        "offset of every optimised dense layer anywhere in a chain of any length, the entry of modelGradX1 + modelGradX2 is the derivative of "
+        "sum_ij c_ij k(g(x_i), g(z_j)) for ALL batch sizes B1 != B2 and batches X1 != X2 (modelKernel_curve_hasDerivAt: chain rule through both "
+        "arguments from the proved backward pass, by uniqueness of derivatives), for every base kernel whose weighted sum is differentiable along "
+        "curves with its two weightedInputDerivative matrices as gradient (KernelInputDerivs) - proved for the Gaussian kernel "
+        "(gauss_kernelInputDerivs, all points / gamma / coefficients) and, Props/C05d.lean, for the polynomial kernel of every degree and offset "
+        "(poly_kernelInputDerivs; degree 1 offset 0 = linear, offset 0 = monomial), closed under scaling and sums (scaled_kernelInputDerivs, "
+        "add_kernelInputDerivs: ScaledKernel, WeightedSumKernel with fixed weights); instantiated on a four-layer chain. END TO END for the Gaussian base "
+        "kernel (Props/C05e-g): the list-based executable gaussInputDeriv IS gaussD1 entry by entry (gaussInputDeriv_entry), the transposed second call is "
+        "gaussD2, the backward pass reads only in-range coefficients (backward_weight_entry_congr, by uniqueness of derivatives), hence "
+        "gauss_modelKernel_weight_derivative_lists: the very vector modelKernelParamGrad computes from the lists C, X1, X2 (what drv_c05 prints for mn pderiv "
+        "and what is compared with the C++) is at every weight position (gauss_modelKernel_offset_derivative_lists: and at every offset position) the derivative of sum_ij C_ij exp(-gamma |g(x1_i) - g(x2_j)|^2); non-vacuity example on concrete lists (3 points against 2). GENERALISED (Props/C05h.lean): ListInputDeriv bundles what is needed of a base kernel "
+        "(curve differentiability with D1f and its transposed call as gradient, the list-based weightedInputDerivative = D1f entry by entry, D1f reads in-range "
+        "entries only); listKernel_modelKernel_weight_derivative / _offset_derivative hold for every such kernel; instances gaussLID and polyLID - the "
+        "POLYNOMIAL kernel of every degree >= 1 and offset with the executable polyInputDeriv incl. its degree-1 (linear) branch and the safe_div branch "
+        "(polyInputDeriv_entry), i.e. the base kernels of the EXACT mn pderiv correspondence (poly_modelKernel_weight_derivative_lists). Correspondence: chains of linear / "
+        "rectifier layers with integer weights over exact base kernels EXACTLY (Rat) and bit for bit (Float): single, block, stateful block, feature "
+        "distance, Gram over partitions, pderiv on blocks x1 != x2 of DIFFERENT sizes, gderivx, flags, setParameterVector in the middle (kernel | "
+        "model parameters, frozen layers skipped); smooth chains (tanh / logistic / softmax / normalizer, any base kernel incl. Gaussian / ARD / sums) "
+        "oracle-only: finite differences of the weighted sum of SINGLE evaluations w.r.t. every kernel and model parameter (dcheck, 2e-5 relative, "
+        "blocks with x1 != x2 and different sizes), Gram-level derivative batched vs unbatched (gderiv, 1e-9), block = single (4 ulp / 1e-13). "
+        "STATE RE-USE (new op reuse, every kernel family): ONE State object serves two consecutive stateful evaluations on different pairs of "
+        "batches of different shapes with derivative calls after each; the second round must return bit for bit what a fresh State returns "
+        "(kernel block, parameter and input derivative). "
+        "THREAD-COUNT SWEEP (new op gramt / mt 3, oracle only, every composite kernel family incl. PointSetKernel, MklKernel, MultiTaskKernel "
+        "(a ProductKernel), ModelKernel): calculateRegularizedKernelMatrix and calculateMixedKernelMatrix over 24-64 points in 5-30 batches of "
+        "alternating sizes, assembled with 2, 3, 4 and 1 OpenMP threads on the ONE shared kernel object, every entry compared with single "
+        "evaluations (bitwise; 4 ulp with NormalizedKernel)."),
   note=TRUST + "floating-point rounding is outside the theorems (exact-arithmetic statements; 'no negative eigenvalues beyond rounding' "
        "is checked numerically by the harness oracle only); Gaussian/ARD PSD-ness is proved for data of equal dimension (the C++ SIZE_CHECK) and is a hypothesis only in the variant for points of unequal length; derivative theorems cover "
        "Gaussian/polynomial/linear/ARD/scaled, the weighted-sum log-weights and (Props/C05b) monomial input, sub-range parameter, ModelKernel kernel-parameter part, adaptive sub-kernels of sums, and the Gram helper (unequal point dimensions are not accepted by the code: a Data<RealVector> batch is a matrix). "
@@ -83,6 +117,11 @@ MANIFEST = dict(
        "CORRESPONDENCE + FINITE DIFFERENCES ONLY (modelled and compared exactly, no HasDerivAt theorem): NormalizedKernel::weightedInputDerivative, SubrangeKernelWrapper::weightedInputDerivative (column embedding), WeightedSumKernel::weightedInputDerivative, the LinearModel part of ModelKernel's parameter derivative (needs joint differentiability of the base kernel in both arguments), PointSetKernel::weightedParameterDerivative. "
        "The exact correspondence of the composed derivative code needs exactly representable values: Gaussian/ARD leaves inside composed kernels, non-power-of-two weights and NormalizedKernel on general points are judged by the finite-difference oracle (2e-5) and the stale-output oracle only. "
        "GaussianTaskKernel: PSD-ness of the task table (a Gaussian of RKHS distances of mean elements) is not proved (multiTask_psd takes it as hypothesis; the harness checks eigenvalues of MultiTaskKernel Gram matrices); MklKernel is exercised with two vector components (the fusion machinery is generic in the tuple); MissingFeaturesKernelExpansion is not reached (C07/C18 own the SVM models); CSvmDerivative is C07's. "
+       "ModelKernel over chains: the theorems are stated on index functions for a base kernel given as a function with the KernelInputDerivs hypothesis (proved for the Gaussian and polynomial kernels, their scalings and sums); "
+       "the end-to-end list-level statement is proved for Gaussian and polynomial (incl. linear) base kernels (weights and offsets); for monomial / scaled / summed / ARD / normalised base kernels the statement is at function level (KernelInputDerivs instances for scalings and sums) or rests on the correspondence; that Kern.inputGradA of EVERY kernel expression satisfies KernelInputDerivs is not proved (the partial-derivative theorems of Props/C05(b) + the exact ideriv correspondence + finite differences tie it); "
+       "rectifier / fast-sigmoid layers carry the NoKink hypothesis of the chain theorems; smooth chains are not compared bit for bit (the model's matrix products are BLAS calls: 1-ulp differences were measured) but by the toleranced oracles; "
+       "exact chains are limited to two dense layers of width <= 2 with weights in {-1,0,1} (values must stay exactly representable); dropout layers and nested ConcatenatedModels inside a ModelKernel are not generated (C04 owns them). "
+       "Thread sweep: a data race is detected only if it manifests in one of the 7 assemblies per op (about 250 gramt ops per quick run; no TSan build here - C20 has one); "
        "State re-use: the derivative functions accept a State computed for other batches silently (parameter derivative = the old batches' derivative; probed, see findings_proposed/C05.md) - the documented contract, honoured by all library callers; not a theorem, not checked per run. "
        "the Gaussian derivative correspondence is "
        "bit-exact on 1x1 blocks only (ARD: all blocks), PointSetKernel with inexact base values only on singleton sets (summation order not modelled); "
@@ -93,11 +132,10 @@ MANIFEST = dict(
        "log-gammas 0 only, arbitrary ones run oracle-only; adaptive sub-kernels and unconstrained encodings are not in the Lean model "
        "(oracle-only, toleranced); PSD after a history follows from kernel_psd_equalDim applied to the reconfigured expression, an "
        "explicit admissibility-preservation theorem for setFactor/setParams is not stated; read() from an archive into a differently "
-       "configured object is not exercised here (C18). OPEN findings F-C05-6 gaussian-task-kernel-stale-matrix (computeMatrix accumulates into the old table; setGamma/setWidth do not recompute; "
+       "configured object is not exercised here (C18). Findings F-C05-6 gaussian-task-kernel-stale-matrix (computeMatrix accumulated into the old table; setGamma/setWidth did not recompute; "
        "corpus/C05/gaussian_task_kernel_stale_matrix.txt) and F-C05-7 pointset-parameter-derivative-not-cleared (gradient resized, not cleared; "
-       "calculateKernelMatrixParameterDerivative wrong for > 1 batch; corpus/C05/pointset_parameter_derivative_not_cleared.txt): while the corpus "
-       "probes fail the generated stream does not reconfigure live task kernels and does not call the PointSetKernel parameter derivative into "
-       "re-used gradients (on a patched tree both are generated: validated with VERIF_REPO). F-C05-5 product-stale-parameter-count is repaired "
+       "corpus/C05/pointset_parameter_derivative_not_cleared.txt) are repaired in /repo (9339bce1, ceadede4): the corpus probes pass and the generated stream "
+       "reconfigures live task kernels and calls the PointSetKernel parameter derivative into re-used gradients (the probes switch these off again on a tree where the defects are back). F-C05-5 product-stale-parameter-count is repaired "
        "(f6f5bb01; the probe passes, sums below products are made adaptive). Four genuine defects found earlier by this check "
        "(normalized-stateless-block, discrete-block-ignores-indices, monomial-degree1-input-derivative, product-uninitialised-parameter-count) "
        "are repaired in /repo by fix: commits ceaec0f1, f2e5cee8, e15da9fc, dba592e9; their inputs stay in corpus/C05 and the model is the repaired code.",
@@ -106,12 +144,12 @@ MANIFEST = dict(
 
 FINISH = dict(level="proof",
               rule="a case = kernel expression (random composition, depth <= 3, dyadic parameters) + integer points + ops "
-                   "(single / block / sblock / fdist / fdistb / flags / gram over batch partitions / mixed / pderiv / ideriv / dcheck / stale / gderiv / gderivx / unitvar / kexp+kx / skip; task / tbatch / tsetparams / tsetgamma / mt; mkl + mk <op>) "
+                   "(single / block / sblock / fdist / fdistb / flags / gram over batch partitions / mixed / pderiv / ideriv / dcheck / stale / reuse / gramt / gderiv / gderivx / unitvar / kexp+kx / skip; task / tbatch / tsetparams / tsetgamma / mt; mkl + mk <op>; mnet + mn <op>) "
                    "+ in-place reconfigurations (setfactor / setparams / adaptall) with observations after each; non-trivial = composed kernel "
                    "(depth >= 1) or a Gram op with >= 2 batches; distinct = distinct op text")
 
-LAKE_TARGETS = ["SharkVerif.Props.C05", "SharkVerif.Props.C05b", "drv_c05"]
-PROPS = ["SharkVerif.Props.C05", "SharkVerif.Props.C05b"]
+LAKE_TARGETS = ["SharkVerif.Props.C05", "SharkVerif.Props.C05b", "SharkVerif.Props.C05c", "SharkVerif.Props.C05d", "SharkVerif.Props.C05e", "SharkVerif.Props.C05f", "SharkVerif.Props.C05g", "SharkVerif.Props.C05h", "drv_c05"]
+PROPS = ["SharkVerif.Props.C05", "SharkVerif.Props.C05b", "SharkVerif.Props.C05c", "SharkVerif.Props.C05d", "SharkVerif.Props.C05e", "SharkVerif.Props.C05f", "SharkVerif.Props.C05g", "SharkVerif.Props.C05h"]
 
 
 # ----------------------------------------------------------------------------- values
@@ -396,6 +434,7 @@ def gen_history_case(r, maxn):
     hist, inexact = history_ops(r, toks, info, n, reg, steps=r.range(2, 4), free_ard=free_ard)
     ops += hist
     ops.append("unitvar " + " ".join(map(str, rand_partition(r, n))))
+    if r.chance(1, 3): ops.append(gramt_op(r))
     a = r.below(n); b = r.range(a + 1, min(n, a + 3)); c = r.below(n); d = r.range(c + 1, min(n, c + 3))
     ops.append(f"dcheck {a} {b} {c} {d} " + " ".join(str(r.range(-2, 2)) for _ in range((b - a) * (d - c))))
     if inexact: info = dict(info, exact=False)
@@ -448,6 +487,7 @@ def gen_config_case(r, maxn, avoid_prod_adaptive=False):
     ops.append(("setparams " + " ".join(dy(v) for v in new_params(r, slots, free_ard=True))).strip())
     ops += observe_ops(r, n, reg)
     derivs()
+    if r.chance(1, 3): ops.append(gramt_op(r))
     ops += kexp_ops(r, n)
     info = dict(info, n=n, dim=dim, parts=0, exact_case=False, oracle_only=True,
                 kinds=info["kinds"] | {"config"} | ({"adaptive"} if adaptive else set()))
@@ -511,6 +551,12 @@ def gen_case(ctx, r, maxn, all_partitions=False, ps_reuse_ok=False):
     if inexact: info = dict(info, exact=False)
     ops.append("unitvar " + " ".join(map(str, rand_partition(r, n))))
     ops.append("gderiv " + " ".join(map(str, rand_partition(r, n))))
+    # kernel objects are shared by the OpenMP threads of the blockwise Gram assembly: thread-count sweep for composite kernels
+    if info["depth"] >= 1 and r.chance(1, 2):
+        ops.append(gramt_op(r))
+        if psops and r.chance(1, 2): ops.append("ps " + gramt_op(r).replace("64", "16").replace("40", "12").replace("24", "8"))
+    a = r.below(n); b = r.range(a + 1, n); c = r.below(n); d = r.range(c + 1, n); a2 = r.below(n); b2 = r.range(a2 + 1, n); c2 = r.below(n); d2 = r.range(c2 + 1, n)
+    ops.append(f"reuse {a} {b} {c} {d} {a2} {b2} {c2} {d2} " + " ".join(str(r.range(-2, 2)) for _ in range((b2 - a2) * (d2 - c2))))
     # numerical derivative oracle on the real code (finite differences); last, because it resets parameters
     a = r.below(n); b = r.range(a + 1, min(n, a + 3)); c = r.below(n); d = r.range(c + 1, min(n, c + 3))
     ops.append(f"dcheck {a} {b} {c} {d} " + " ".join(str(r.range(-2, 2)) for _ in range((b - a) * (d - c))))
@@ -705,6 +751,125 @@ def gen_deriv2_case(r, maxn, pointset_ok=False):
     return ops, dict(exact=True, exact_case=True, kinds=kinds, depth=1, n=n, dim=dim, parts=0, M=Fraction(1), f=0)
 
 
+
+# ----------------------------------------------------------------------------- ModelKernel over models WITH state
+NETW = [Fraction(-1), Fraction(-1, 2), Fraction(0), Fraction(1, 2), Fraction(1), Fraction(3, 4), Fraction(-1, 4), Fraction(3, 2), Fraction(-2)]
+
+
+def gen_net(r, nin, exact):
+    """a ConcatenatedModel chain (specs as in harness/c04.cpp).  exact: linear / rectifier layers with weights in {-1,0,1},
+    at most two dense layers of width <= 2 (all values stay small integers); otherwise tanh / logistic / linear dense
+    layers with dyadic weights, element-wise neuron layers, optionally a softmax / normalizer row layer.
+    Returns (specs, params of ALL dense layers, parameter slots of the OPTIMISED layers, number of layers)"""
+    specs, params, slots = [], [], []
+    n = nin
+    ndense = r.choice([1, 2, 2, 2]) if exact else r.choice([1, 2, 2, 2, 3])
+    last_act = None
+    for li in range(ndense):
+        nout = r.choice([1, 2, 2]) if exact else r.choice([1, 2, 2, 3, 4])
+        act = r.choice(["linear", "rectifier", "rectifier"]) if exact else r.choice(["tanh", "tanh", "logistic", "linear"])
+        if li == ndense - 1 and r.chance(1, 2): act = "linear"          # the usual network: non-linear hidden layers, linear output
+        hb = not r.chance(1, 4); opt = not r.chance(1, 5)                  # frozen layers: not part of the parameter vector
+        np_ = nout * n + (nout if hb else 0)
+        vals = [Fraction(r.range(-1, 1)) for _ in range(np_)] if exact else [r.choice(NETW) for _ in range(np_)]
+        specs.append(f"d:{act}:{int(hb)}:{nout}:{int(opt)}"); params += vals
+        if opt: slots += ["int" if exact else "logw"] * np_
+        n = nout; last_act = act
+        if r.chance(1, 5):
+            a2 = r.choice(["rectifier", "linear"]) if exact else r.choice(["tanh", "logistic"])
+            specs.append(f"n:{a2}:{r.below(2)}"); last_act = a2
+    if not exact and r.chance(1, 4):
+        if last_act == "logistic" and r.chance(1, 2): specs.append(f"r:normalizer:{r.below(2)}")   # sums of logistic outputs are > 0
+        else: specs.append(f"r:softmax:{r.below(2)}")
+    return specs, params, slots, len(specs)
+
+
+def gen_mnet_case(r, maxn, exact):
+    """ModelKernel over a ConcatenatedModel chain: the model's State holds the hidden responses of ONE batch, the kernel keeps
+    one State per argument.  Observed: single / block / stateful block / feature distance / Gram over partitions, the parameter
+    derivative on blocks with x1 != x2 of DIFFERENT sizes, through the Gram helper, after setParameterVector, with a State
+    object that served other batches before, into re-used outputs; finite differences for smooth chains.
+    exact: compared with the Lean model (Rat + Float); otherwise oracle-only (finite differences 2e-5)."""
+    dim = r.choice([1, 2, 2, 3]); n = r.range(2, min(maxn, 6))
+    specs, params, nslots, nl = gen_net(r, dim, exact)
+    # dimension of the base kernel's inputs = output dimension of the chain
+    odim = dim
+    for sp in specs:
+        f = sp.split(":")
+        if f[0] == "d": odim = int(f[3])
+    if exact:
+        g = DGen(r)
+        toks, ps, psa = g.gen(odim, r.choice([0, 1, 1]), False, False)
+        if r.chance(1, 12):
+            # a base kernel WITHOUT derivatives (ProductKernel): the ModelKernel must not claim a parameter derivative
+            small = [(["lin"], []), (["poly", "2", "1"], ["off"]), (["mono", "2"], []), (["poly", "1", "1:-1"], ["off"])]     # values stay below 2^40
+            (l1, p1), (l2, p2) = r.choice(small), r.choice(small)
+            toks, ps, psa = ["prod", "2"] + l1 + l2, p1 + p2, p1 + p2; g.kinds |= {"prod", "lin", "poly"}
+        kinds = set(g.kinds); kslots = ps
+        pts = [[r.range(-2, 2) for _ in range(dim)] for _ in range(n)]
+    else:
+        kg = KGen(r); kg.no_norm = 1
+        for _ in range(40):
+            toks, info = kg.gen(odim, r.choice([0, 1, 1, 2]))
+            if "prod" not in toks and "model" not in toks: break
+        else:
+            toks, info = ["gauss", "1:-1"], dict(kinds={"gauss"}, ps=["gamma"])
+        kinds = set(info["kinds"]); kslots = info["ps"]
+        pts = gen_points(r, n, dim, False)
+    ops = ["kern " + " ".join(toks), f"pts {n} {dim} " + " ".join(str(v) for p in pts for v in p)]
+    # adaptive sub-kernels of a weighted sum below the ModelKernel: their parameters are part of kernelGrad | modelGrad
+    adaptive = exact and ("wsum" in toks or "subk" in toks) and r.chance(1, 2)
+    if adaptive: ops.append("adaptall"); kslots = psa
+    ops += [f"mnet {nl} " + " ".join(specs) + " " + " ".join(dy(v) for v in params), "mn flags"]
+
+    def two_blocks(maxlen):
+        while True:
+            a = r.below(n); b = r.range(a + 1, min(n, a + maxlen)); c = r.below(n); d = r.range(c + 1, min(n, c + maxlen))
+            if (a, b) != (c, d): return a, b, c, d
+
+    def coeffs(k):
+        return " ".join(dy(r.choice([Fraction(v) for v in (-2, -1, 1, 2, 3)] + [Fraction(1, 2)])) for _ in range(k))
+
+    def observe():
+        i = r.below(n)
+        ops.extend([f"mn single {i} {i}", f"mn single {r.below(n)} {r.below(n)}", f"mn fdist {r.below(n)} {r.below(n)}"])
+        a, b, c, d = two_blocks(n)
+        ops.extend([f"mn block {a} {b} {c} {d}", f"mn sblock {a} {b} {c} {d}"])
+        ops.append(f"mn gram {dy(r.choice([Fraction(0), Fraction(1, 2)]))} " + " ".join(map(str, rand_partition(r, n))))
+
+    def derivs():
+        for _ in range(2):
+            a, b, c, d = two_blocks(4)
+            ops.append(f"mn pderiv {a} {b} {c} {d} {coeffs((b - a) * (d - c))}")
+        ops.append("mn gderivx " + " ".join(map(str, rand_partition(r, n))))
+        ops.append("mn gderiv " + " ".join(map(str, rand_partition(r, n))))
+        a, b, c, d = two_blocks(4); a2, b2, c2, d2 = two_blocks(4)
+        ops.append(f"mn reuse {a} {b} {c} {d} {a2} {b2} {c2} {d2} {coeffs((b2 - a2) * (d2 - c2))}")
+        a, b, c, d = two_blocks(3)
+        ops.append(f"mn stale {a} {b} {c} {d} {coeffs((b - a) * (d - c))}")
+        if not exact:
+            for _ in range(2):
+                a, b, c, d = two_blocks(3)
+                ops.append(f"mn dcheck {a} {b} {c} {d} " + " ".join(str(r.choice([-2, -1, 1, 2])) for _ in range((b - a) * (d - c))))
+    observe(); derivs()
+    if r.chance(1, 2):
+        if exact:
+            vals = [Fraction(0) if q == "logw" else (r.choice(OFFSETS) if q == "off" else Fraction(r.range(-1, 1))) for q in kslots + nslots]
+            nsum_ok = all(is_pow2(Fraction(int(t))) for t, prev in zip(toks[1:], toks[:-1]) if prev in ("wsum", "subk"))
+        else:
+            vals = new_params(r, kslots + nslots, free_ard=True); nsum_ok = True
+        if nsum_ok:
+            ops.append(("mn setparams " + " ".join(dy(v) for v in vals)).strip()); ops.append("mn flags"); observe(); derivs()
+    if r.chance(1, 2): ops.append(f"mn gramt {r.choice([24, 40])} {r.choice([2, 3, 5])}")
+    kinds |= {"mnet"} | ({"mnet-exact"} if exact else {"mnet-smooth"}) | ({"adaptive"} if adaptive else set())
+    return ops, dict(exact=exact, exact_case=exact, kinds=kinds, depth=2, n=n, dim=dim, parts=0, M=Fraction(1), f=0, oracle_only=not exact)
+
+
+def gramt_op(r):
+    """thread-count sweep of the blockwise Gram assembly (oracle only): N points in batches of alternating sizes bs / bs-1"""
+    return f"gramt {r.choice([24, 40, 64])} {r.choice([2, 3, 5, 8])}"
+
+
 def kexp_ops(r, n, exactvals=True):
     """a KernelExpansion over the first m points (basis batched), evaluated on blocks of the points"""
     m = r.range(1, n); nout = r.choice([1, 1, 2, 3]); off = r.below(2)
@@ -748,6 +913,7 @@ def gen_task_case(r, maxn, reconf_ok):
         ops.append(f"mt 1 {a} {b} {c} {d}")
         ops.append(f"mt 2 {dy(r.choice([Fraction(0), Fraction(1, 2)]))} " + " ".join(map(str, rand_partition(r, n))))
     observe()
+    ops.append(f"mt 3 {r.choice([24, 40, 64])} {r.choice([2, 3, 5, 8])}")     # MultiTaskKernel IS a ProductKernel: thread-count sweep
     if reconf_ok:
         for _ in range(r.range(1, 2)):
             if r.chance(1, 2): ops.append(f"tsetgamma {dy(r.choice(GAMMAS))}")
@@ -777,6 +943,7 @@ def gen_mkl_case(r, maxn):
     observe()
     if r.chance(1, 2):
         ops.append(f"mk setparams {dy(r.choice(LOGS))}"); observe()
+    if r.chance(1, 2): ops.append("mk " + gramt_op(r))
     a = r.below(n); b = r.range(a + 1, min(n, a + 3)); c = r.below(n); d = r.range(c + 1, min(n, c + 3))
     ops.append(f"mk dcheck {a} {b} {c} {d} " + " ".join(str(r.range(-2, 2)) for _ in range((b - a) * (d - c))))
     ex = pw == 0 and i1["exact"] and i2["exact"] and "setparams" not in " ".join(ops)
@@ -813,7 +980,9 @@ def kinds_of(ops):
     toks = ops[0].split() if ops else []
     if toks and toks[0] == "mkl": toks = ["kern", "mkl"] + toks[3:]
     names = {"mkl", "lin", "poly", "mono", "gauss", "ard", "norm", "scaled", "wsum", "wsump", "prod", "sub", "disc", "model", "subk", "polyu", "gaussu"}
-    return sorted({t for t in toks[1:] if t in names})
+    ks = {t for t in toks[1:] if t in names}
+    if any(o.startswith("mnet ") for o in ops): ks.add("mnet")
+    return sorted(ks)
 
 
 def classify(ops, res):
@@ -831,7 +1000,7 @@ def classify(ops, res):
     fop = None
     for o, l in zip(ops, res.impl):
         if "!oracle" in l:
-            w = o.split(); fop = w[1] if w[0] in ("ps", "mk") and len(w) > 1 else w[0]
+            w = o.split(); fop = w[1] if w[0] in ("ps", "mk", "mn") and len(w) > 1 else w[0]
             break
     reconfigured = any(o in ("setfactor", "setparams") for o in opk)
     if fop is not None:
@@ -886,7 +1055,7 @@ def load_corpus():
     return out
 
 
-SPARSE_UNSUPPORTED = {"ard", "norm", "sub", "model", "subk"}     # do not compile for CompressedRealVector (see harness/c05.cpp)
+SPARSE_UNSUPPORTED = {"ard", "norm", "sub", "model", "subk", "mnet"}     # do not compile for CompressedRealVector (see harness/c05.cpp)
 
 
 def harness_name():
@@ -961,6 +1130,13 @@ def run(ctx):
         cases.append(gen_task_case(r, maxn, reconf_ok=not tk_stale))
     for _ in range(nmkl):
         cases.append(gen_mkl_case(r, maxn))
+    # ModelKernel over ConcatenatedModel chains (models WITH state): exact chains against the Lean model, smooth chains
+    # (tanh / logistic / softmax / normalizer) against finite differences
+    nnet_x, nnet_s = (150, 200) if ctx.quick else (800, 1000)
+    for _ in range(nnet_x):
+        cases.append(gen_mnet_case(r, maxn, True))
+    for _ in range(nnet_s):
+        cases.append(gen_mnet_case(r, maxn, False))
     if not ctx.quick:
         # partition independence: ALL ordered batch partitions of n points (n <= 12)
         for n in (6, 8, 10, 12):
